@@ -1,6 +1,7 @@
 package main
 
 import (
+	"strconv"
 	"fmt"
 	"go/ast"
 	"go/constant"
@@ -281,9 +282,13 @@ func c12r1(p *Program, r *Report) {
 					// the documented empty value
 					f, _ := facts.Before(rs)
 					okZero := false
-					for _, gd := range zeroGuards[name] {
-						if v, known := f.m[gd]; known && v {
-							okZero = true
+					if _, documented := zeroGuards[name]; documented {
+						// the zero time / the empty string, whatever the value is called
+						for atom, v := range f.m {
+							a := strings.ReplaceAll(atom, " ", "")
+							if v && (strings.HasSuffix(a, ".IsZero()") && !strings.ContainsAny(a, "=<!&|") || strings.HasSuffix(a, `==""`) || strings.HasPrefix(a, `""==`)) {
+								okZero = true
+							}
 						}
 					}
 					if okZero {
@@ -1150,6 +1155,43 @@ func c12r4(p *Program, r *Report) {
 					continue
 				}
 				splitSeen = true
+				// any spelling: locals resolved, constants evaluated, conversions dropped; the remainder as x%1000 or
+				// as x-(x/1000)*1000
+				{
+					var na func(e ast.Expr, depth int) string
+					na = func(e ast.Expr, depth int) string {
+						e = ast.Unparen(stripAllConv(finfo, e))
+						if v, isC := constInt(finfo, e); isC {
+							return fmt.Sprint(v)
+						}
+						switch y := e.(type) {
+						case *ast.Ident:
+							if obj := finfo.Uses[y]; obj != nil && depth < 4 && singleAssigned(finfo, fn.Decl.Body, obj) {
+								if d := localDef(finfo, fn, y); d != nil {
+									return na(d, depth+1)
+								}
+							}
+							return y.Name
+						case *ast.BinaryExpr:
+							l, rr := na(y.X, depth), na(y.Y, depth)
+							if _, lNum := strconv.ParseInt(l, 10, 64); y.Op == token.MUL && lNum == nil {
+								if _, rNum := strconv.ParseInt(rr, 10, 64); rNum != nil {
+									l, rr = rr, l // constants last
+								}
+							}
+							return "(" + l + y.Op.String() + rr + ")"
+						}
+						return strings.ReplaceAll(exprStr(e), " ", "")
+					}
+					sN, nN := na(c.Args[0], 0), na(c.Args[1], 0)
+					if strings.HasPrefix(sN, "(") && strings.HasSuffix(sN, "/1000)") {
+						x := sN[1 : len(sN)-len("/1000)")]
+						if nN == "(("+x+"%1000)*1000000)" || nN == "(("+x+"-(("+x+"/1000)*1000))*1000000)" {
+							split = true
+							continue
+						}
+					}
+				}
 				sid, ok1 := ast.Unparen(c.Args[0]).(*ast.Ident)
 				nid, ok2 := ast.Unparen(c.Args[1]).(*ast.Ident)
 				if !ok1 || !ok2 {
